@@ -87,7 +87,7 @@ class C09(Prop):
         cases.append(Case(lines, 'no-op-calls'))
 
         # B. read-only sessions with the read battery on random content
-        nb = 12 * scale if not thorough else 60 * scale
+        nb = 12 * scale if not thorough else 200 * scale
         for _ in range(nb):
             c = rnd.choice(COMPS)
             lines = ['fs missing', 'open rw %s 0' % c]
@@ -103,7 +103,7 @@ class C09(Prop):
             cases.append(Case(lines, 'ro-battery'))
 
         # C. ReadWrite preserves / creates
-        for _ in range(10 * scale if not thorough else 40 * scale):
+        for _ in range(10 * scale if not thorough else 150 * scale):
             c = rnd.choice(COMPS)
             lines = ['fs missing', 'open rw %s 0' % c]
             if rnd.random() < 0.5:
@@ -143,7 +143,7 @@ class C09(Prop):
                     cases.append(Case(lines, 'header-defect'))
 
         # F. random walks over the whole command set
-        for _ in range(15 * scale if not thorough else 80 * scale):
+        for _ in range(15 * scale if not thorough else 300 * scale):
             lines = ['fs ' + rnd.choice(['missing', 'lib', 'lib', 'plainh5', 'nonh5'])]
             st = {'blocks': {}, 'secs': {}, 'rich': False}
             is_open = False
